@@ -23,7 +23,7 @@ ID = 'C05'
 
 BOUNDS = {
     'quick': dict(LEVELS=2, ATOMS=3, QUANTS=4, FLAGS=['', 'ims'], SUBJECTS=4, PREFIXES=2),
-    'thorough': dict(LEVELS=3, ATOMS=7, QUANTS=6, FLAGS=['', 'i', 'ims'], SUBJECTS=5, PREFIXES=3),
+    'thorough': dict(LEVELS=3, ATOMS=5, QUANTS=5, FLAGS=['', 'i', 'ims'], SUBJECTS=5, PREFIXES=2),
 }
 
 KILL_S = 3.0
@@ -367,6 +367,17 @@ def main(tier, seed, t0):
     # confirmation runs: first all candidates once more in parallel (8 at a time, half the cores idle); the ones still
     # over the bound a third time, alone on the idle machine
     cands = sorted(total.bag, key=repr)
+    # at most 24 confirmation runs per (phase, pattern feature class): a class that is confirmed 24 times is established
+    per_class = {}
+    kept = []
+    for c in cands:
+        key = (c[1], features(c[0][0]), c[0][3] if c[1] == 'call' else '')
+        per_class[key] = per_class.get(key, 0) + 1
+        if per_class[key] <= 24:
+            kept.append(c)
+        else:
+            total.count('candidates_beyond_24_per_class_not_reconfirmed')
+    cands = kept
     if ABORT.value:
         # the exploration was cut short: it is no longer exhaustive, and only a few candidates are confirmed
         cands = [c for c in cands if c[1] == 'compile'][:4] + [c for c in cands if c[1] == 'call'][:12]
